@@ -69,7 +69,26 @@ def _check_msm(msg, ident, base, ref, tag, out, parse_msm):
     return res
 
 
+_OTHER = {}
+
+
+def _other_messages():
+    """One fixed message per MSM identity (another station, epoch, masks) for interleaving."""
+    from pyrtcm import RTCMMessage  # pylint: disable=import-outside-toplevel
+
+    if not _OTHER:
+        for n in pinned.MSM_NUMBERS:
+            try:
+                pl, _o, _n = R.build(str(n), {"DF394": (1 << 50) | (1 << 3), "DF395": 1 << 20, "DF396": 0b11,
+                                              "DF003": 2222}, "ones")
+                _OTHER[str(n)] = RTCMMessage(payload=pl)
+            except Exception:  # pylint: disable=broad-except
+                pass
+    return _OTHER
+
+
 def judge_msm(case, out):
+    _other_messages()
     from pyrtcm import RTCMMessage, parse_msm  # pylint: disable=import-outside-toplevel
 
     ident = case["id"]
@@ -83,25 +102,45 @@ def judge_msm(case, out):
                               case["shape"]["DF396"])
     # the same payload as decoded under each label option, one after the other (a consumer per
     # option), each result scribbled over by its caller before the next call
+    import copy  # pylint: disable=import-outside-toplevel
+
+    kept = None  # (result object, deep copy taken when it was returned, tag)
     for lm in (1, 2, 0, 2, 1):
         msg = RTCMMessage(payload=payload, labelmsm=lm)
         tag = f"{ident} {case['shape']}" + (f" labelmsm={lm}" if lm != 1 else "")
         res = _check_msm(msg, ident, base, ref, tag, out, parse_msm)
         if out.violations:
             return
-        try:  # what a caller may do with ITS result must not reach later results
-            res[0].clear()
-            for lst in res[1:]:
-                for e in lst:
-                    if isinstance(e, dict):
-                        e.clear()
-                if isinstance(lst, list):
-                    lst.clear()
-        except Exception:  # pylint: disable=broad-except
-            pass
-        if lm == 1:
-            _check_msm(msg, ident, base, ref, tag + " (second call, first result modified by caller)",
-                       out, parse_msm)
+        # a result the caller still HOLDS must not be changed by a later call (the previous result
+        # was kept untouched until now)
+        if kept is not None and kept[0] != kept[1]:
+            out.bad("earlier-result-changed-by-later-call",
+                    f"{kept[2]}: the result returned earlier has changed after a later parse_msm() call "
+                    f"(metadata now {str(kept[0][0])[:120]})")
+            return
+        other = _OTHER.get(ident)
+        if other is not None and lm == 1:
+            # ... nor by a call on ANOTHER message of the same constellation
+            snap = copy.deepcopy(res)
+            parse_msm(other)
+            if res != snap:
+                out.bad("earlier-result-changed-by-later-call",
+                        f"{tag}: the result changed when parse_msm() was called on another message of "
+                        f"the same constellation")
+                return
+        if kept is not None:
+            prev = kept[0]
+            try:  # what a caller does with ITS (earlier) result must not reach later results
+                prev[0].clear()
+                for lst in prev[1:]:
+                    for e in lst:
+                        if isinstance(e, dict):
+                            e.clear()
+                    if isinstance(lst, list):
+                        lst.clear()
+            except Exception:  # pylint: disable=broad-except
+                pass
+        kept = (res, copy.deepcopy(res), tag)
     out.obs = core.h64(repr((ident, sorted(case["shape"].items()))))
 
 
@@ -204,6 +243,10 @@ def cases(tier):
         {"DF394": (1 << 64) - 1, "DF395": 1 << 9, "DF396": (1 << 64) - 1},
         {"DF394": msmref.first_n(64, 12, 2), "DF395": msmref.first_n(32, 9, 1),
          "DF396": int("110" * 36, 2)},
+        # fewer cells than satellites (but not none)
+        {"DF394": msmref.first_n(64, 3, 1), "DF395": 1 << 30, "DF396": 0b010},
+        {"DF394": msmref.first_n(64, 5, 2), "DF395": (1 << 30) | (1 << 9), "DF396": 0b0100100001},
+        {"DF394": (1 << 64) - 1, "DF395": 1 << 9, "DF396": 1 << 20},
     ]
     if tier == "thorough":
         shapes += [
